@@ -76,7 +76,10 @@ class Lock:
 # builds
 
 def coq_targets_for(prop):
-    return ["theories/Props/%s.vo" % prop, "theories/Run/Run%s.vo" % prop]
+    t = ["theories/Props/%s.vo" % prop]
+    if os.path.exists(os.path.join(COQ, "theories", "Run", "Run%s.v" % prop)):
+        t.append("theories/Run/Run%s.vo" % prop)
+    return t
 
 
 def build_coq(targets=None, timeout=3000):
